@@ -606,43 +606,25 @@ func rawExtractSuffixes(re *syntax.Regexp, ci bool) []string {
 		return result
 
 	case syntax.OpConcat:
-		// Try the full extractLiterals pipeline first (handles deeper nesting
-		// through the trieReconstruct fallback it already calls).
-		lits := extractLiterals(re, ci)
-		if lits != nil {
-			switch v := lits.(type) {
-			case allRequired:
-				// Only safe to return a single trie suffix when the concat
-				// collapses to exactly one contiguous literal. Multiple
-				// allRequired elements mean there are wildcards between them
-				// (e.g. "elect.*from" → allRequired{"elect","from"}). Joining
-				// them would produce "electfrom" — a phantom string that never
-				// appears contiguously in a real input — causing false negatives
-				// on valid matches like "select x from". Return nil here so the
-				// caller falls back to the safer anyRequired propagation instead.
-				if len(v) == 1 {
-					return []string{v[0]}
-				}
-				return nil
-			case anyRequired:
-				return []string(v)
-			case combinedRequired:
-				// For trie-reconstruction we need a suffix that is *always* present
-				// when this sub-concat fires. The .all elements are guaranteed;
-				// .any elements are only conditionally present (one of them must be
-				// present, but not a specific one). Returning a .any element would
-				// let the outer prefix combine with a wrong suffix (e.g. "s"+"execute"
-				// instead of "s"+"p_"+"execute" → "sp_execute"), producing a phantom
-				// literal that never appears contiguously in real input.
-				// Return the single longest .all element as the guaranteed suffix.
-				rep := longest([]string(v.all))
-				if rep == "" {
-					return nil
-				}
-				return []string{rep}
-			}
+		// The caller glues the suffix directly behind the prefix literal, so it
+		// must be what this branch *starts* with. A literal found anywhere else
+		// in the branch (s(?:\s*elect|leep), 2(?:4|.11), p(?:g_(?:query|exec)\(\)|x))
+		// would be combined into a phantom string ("select", "211", "pg()") that
+		// matching inputs need not contain — a false negative.
+		if len(re.Sub) == 0 {
+			return nil
 		}
-		return nil
+		head := rawLiteral(re.Sub[0], ci)
+		if head == "" {
+			return nil
+		}
+		// head(?:a|b): the shape regexp/syntax produces when it factors nested
+		// common prefixes (s(?:e(?:lect|t)|leep)). Reconstruct it recursively.
+		if nested := trieReconstruct(re, ci); nested != nil {
+			return []string(nested)
+		}
+		// Otherwise the leading literal alone is the guaranteed start of the branch.
+		return []string{head}
 
 	case syntax.OpCapture:
 		return rawExtractSuffixes(re.Sub[0], ci)
